@@ -8,6 +8,7 @@ from hypothesis import strategies as st
 
 from .. import gens, refs
 from ..runner import Sub
+from . import probes
 from .common import L, Checker, arr
 
 PROPERTY_ID = "C04"
@@ -18,6 +19,7 @@ RULE = ("rotations incl. angles within 1e-9 of 0 and pi on every axis (all three
         "rotation; embeddings SO2->SE2, SO3->SE3, SE2->SE3 as homomorphisms preserving the action on points; expression "
         "trees evaluated independently per representation. Non-trivial: angle within 1e-6 of 0 or pi, or |t|>1e3, or axis "
         "length outside [0.5,2], or tree depth>=2.")
+RULE = RULE + probes.RULE_TEXT + (probes.AUG_TEXT if PROPERTY_ID in probes.AUG_PROPS else "")
 ASSUMPTIONS = ["all values compared as matrices to 1e-6 relative to max(1,|t|); quaternions through the reference q2r (sign-free)",
                "UnitDualQuaternion has no inverse method: only products and round trips are checked for it"]
 
@@ -71,6 +73,8 @@ def s_tree(maxdepth):
 
 
 def check_case(case):
+    if case.get("kind") in ("hist", "aug"):
+        return probes.run(case, PROPERTY_ID)
     return {"round": _round, "ctor": _ctor, "embed": _embed, "tree": _tree}[case["kind"]](case)
 
 
@@ -387,6 +391,8 @@ def _tree(case):
 
 
 def classify(case):
+    if case.get("kind") in ("hist", "aug"):
+        return probes.classify(case)
     k = case["kind"]
     lab = {"kind:" + k: True}
     if k == "round":
@@ -411,4 +417,5 @@ def subchecks(tier):
         Sub("ctor", strategy=s_ctor(), n=(300, 8000), shards=(4, 16)),
         Sub("embed", strategy=s_embed(), n=(300, 8000), shards=(3, 16)),
         Sub("tree", strategy=s_tree(3 if tier == "quick" else 5), n=(200, 6000), shards=(4, 16)),
+        *probes.subs(PROPERTY_ID),
     ]
